@@ -8,6 +8,7 @@ import (
 	"net"
 	"runtime"
 	"runtime/debug"
+	"strings"
 	"testing"
 	"time"
 
@@ -527,6 +528,27 @@ func seedMessage(c *ev.Case, ctx *lib.Ctx) (*gen.Msg, []byte) {
 	}
 }
 
+// c03LaterXML defines, after the fact, codes that earlier messages carried as opaque data, and
+// gives an application other types for codes of the base application.
+const c03LaterXML = `<?xml version="1.0" encoding="UTF-8"?>
+<diameter>
+  <application id="0" name="Base">
+    <avp name="L-Group" code="9600" must="M"><data type="Grouped"><rule avp="G-Octets" required="false"/></data></avp>
+    <avp name="L-U32" code="9601" must="M"><data type="Unsigned32"/></avp>
+    <avp name="L-Addr" code="9602" must="M"><data type="Address"/></avp>
+    <avp name="LV-Group" code="9603" must="M,V" vendor-id="99999"><data type="Grouped"><rule avp="G-Octets" required="false"/></data></avp>
+    <avp name="L-Time" code="9604" must="M"><data type="Time"/></avp>
+    <avp name="L-IPv4" code="9605" must="M"><data type="IPv4"/></avp>
+    <avp name="L-F64" code="9606" must="M"><data type="Float64"/></avp>
+    <avp name="L-URI" code="9607" must="M"><data type="DiameterURI"/></avp>
+  </application>
+  <application id="8388001" type="auth" name="Gen-App">
+    <avp name="LA-Group-As-Octets" code="9018" must="M"><data type="OctetString"/></avp>
+    <avp name="LA-U32-As-Group" code="9009" must="M"><data type="Grouped"><rule avp="G-Octets" required="false"/></data></avp>
+    <avp name="LA-Octets-As-Group" code="9001" must="M"><data type="Grouped"><rule avp="G-Octets" required="false"/></data></avp>
+  </application>
+</diameter>`
+
 func TestC03(t *testing.T) {
 	rec := ev.Open(t, "C03")
 	defer rec.Close()
@@ -831,6 +853,72 @@ func TestC03(t *testing.T) {
 	})
 
 	// 4. random byte strings with plausible headers
+	// a message decoded while its dictionary did not know some of its AVPs (they are carried as
+	// opaque data), then a dictionary is loaded that defines those codes - as groups, numbers,
+	// addresses - and the message kept from before is inspected; likewise a decoded message
+	// whose header is given the id of an application that defines its codes with other types
+	gf, err := refdict.Parse("gen", lib.GenXML)
+	if err != nil {
+		t.Fatal(err)
+	}
+	rec.Suite("inspected-after-load", raceDiv(rec, rec.N(300, 20000), 3), func(c *ev.Case) {
+		r := c.R
+		fresh, err := lib.Load("gen", gf)
+		if err != nil {
+			c.Fail(ev.Sig{"op": "setup"}, nil, nil, "load: %v", err)
+			return
+		}
+		var nodes []*refcodec.Node
+		for k := 1 + r.IntN(6); k > 0; k-- {
+			code := uint32(9600 + r.IntN(8))
+			n := &refcodec.Node{Code: code, Flags: 0x40, Kind: refcodec.Unknown}
+			if code == 9603 {
+				n.Flags, n.Vendor = 0xC0, 99999
+			}
+			switch r.IntN(4) {
+			case 0: // a well-formed group body
+				n.B = append((&refcodec.Node{Code: 9001, Flags: 0x40, Kind: refcodec.OctetString, B: []byte("member")}).Encode(), (&refcodec.Node{Code: 9009, Flags: 0x40, Kind: refcodec.Unsigned32, U: 7}).Encode()...)
+			case 1:
+				n.B = make([]byte, []int{0, 1, 4, 6, 8, 18}[r.IntN(6)])
+			default:
+				n.B = make([]byte, r.IntN(40))
+				for i := range n.B {
+					n.B[i] = byte(r.Uint32())
+				}
+			}
+			nodes = append(nodes, n)
+			if r.IntN(3) == 0 {
+				nodes = append(nodes, &refcodec.Node{Code: 9018, Flags: 0x40, Kind: refcodec.Grouped, Kids: []*refcodec.Node{{Code: code, Flags: n.Flags, Vendor: n.Vendor, Kind: refcodec.Unknown, B: n.B}}})
+			}
+			if r.IntN(3) == 0 {
+				nodes = append(nodes, &refcodec.Node{Code: 9009, Flags: 0x40, Kind: refcodec.Unsigned32, U: uint64(r.Uint32())})
+			}
+		}
+		in := refcodec.EncodeMessage(refcodec.Header{Version: 1, Flags: 0x80, Code: 8388000, HopByHop: 1, EndToEnd: 2}, nodes)
+		c.Class("inspected-after-load/avps=%d", len(nodes))
+		c.Input("ReadMessage", in)
+		var m *diam.Message
+		if p, bad := guard(func() { m, err = diam.ReadMessage(bytes.NewReader(in), fresh.Parser) }); bad {
+			c.Fail(ev.Sig{"op": "panic", "call": "ReadMessage", "site": panicSite(p)}, in, nil, "ReadMessage panicked: %s", p)
+			return
+		}
+		if err != nil || m == nil {
+			c.Fail(ev.Sig{"op": "read-ref-wire"}, in, nil, "a well-formed message with undefined AVPs is not readable: %v", err)
+			return
+		}
+		if c.I%4 != 3 {
+			if p, bad := guard(func() { err = fresh.Parser.Load(strings.NewReader(c03LaterXML)) }); bad || err != nil {
+				c.Fail(ev.Sig{"op": "setup"}, nil, nil, "loading the later dictionary: %v %s", err, p)
+				return
+			}
+		}
+		if c.I%4 >= 2 {
+			m.Header.ApplicationID = 8388001
+		}
+		if inspect(c, fresh, m, in, fmt.Sprintf("decoded before the dictionary grew, variant %d", c.I%4)) {
+			c.Event("inspected_after_load", 1)
+		}
+	})
 	rec.Suite("random", raceDiv(rec, rec.N(20000, 2000000), 8), func(c *ev.Case) {
 		r := c.R
 		ctx := ctxs[c.I%len(ctxs)]
